@@ -59,14 +59,14 @@ func c19Keys() []keyPair {
 }
 
 type c19Machine struct {
-	ev            *psatoken.Evidence
-	env           c19Env
-	attached      psatoken.IClaims // object identity expected in ev.Claims after SetClaims; nil if unknown/decoded
-	replacedSince bool
-	trace         []string
+	ev                                                       *psatoken.Evidence
+	env                                                      c19Env
+	attached                                                 psatoken.IClaims // object identity expected in ev.Claims after SetClaims; nil if unknown/decoded
+	replacedSince                                            bool
+	trace                                                    []string
 	sawFailThenVerify, sawDecodeAfterSign, sawFault, sawSign bool
-	lastFailed    bool
-	goodSigns     int
+	lastFailed                                               bool
+	goodSigns                                                int
 }
 
 func (mc *c19Machine) log(f string, a ...any) { mc.trace = append(mc.trace, fmt.Sprintf(f, a...)) }
